@@ -58,7 +58,9 @@ G_StatusPats == {sp}
 G_BoundPats == {bp}
 G_DictVals == {seq(tla_q(F(s)) for s in DICTV[:nr])}
 G_Clashes == {{{", ".join(f'"{c}"' for c in clashes)}}}
-G_Constraint == clash = "none" \\/ (dict = {{}} /\\ \\A r \\in Roles : ord[r] = r)
+G_SplitSets == {{ {{}}, {{1}}, {{{nr}}} }}
+G_Constraint == /\\ (clash = "none" \\/ (dict = {{}} /\\ split = {{}} /\\ \\A r \\in Roles : ord[r] = r))
+                /\\ (split = {{}} \\/ \\A r \\in Roles : ord[r] = r)
 ====
 '''
 
@@ -76,6 +78,7 @@ CONSTANTS
  BoundPats <- G_BoundPats
  DictVals <- G_DictVals
  Clashes <- G_Clashes
+ SplitSets <- G_SplitSets
 CONSTRAINT G_Constraint
 INVARIANT OrderIrrelevant
 INVARIANT SortedByName
@@ -214,6 +217,33 @@ def replay(rec):
                     if l['elem'] != want_elem:
                         out.append(dict(what='boundary Beta line elementary index', line=l['raw'], want=want_elem))
     boundary.reset()
+    # several formulas side by side: the roles of `split` occur only in a second formula
+    if any(rec['split']):
+        x_ = ex.Variable('x')
+        terms_ll, terms_aux, bobj = None, None, {}
+        for k in range(nr):
+            r = rec['ord'][k] - 1
+            lo_, hi_ = bnd(rec['bounds_by_role'][r])
+            be = ex.Beta(names[r], fq(rec['start'][r]), lo_, hi_, 0 if rec['free'][r] else 1)
+            if rec['split'][r]:
+                t_ = A[r] * (be + C[r] * x_)
+                terms_aux = t_ if terms_aux is None else terms_aux + t_
+            else:
+                dd_ = be - C[r] * x_
+                t_ = -A[r] * (dd_ * dd_)
+                terms_ll = t_ if terms_ll is None else terms_ll + t_
+        b6 = bio.BIOGEME(d, {'aux': terms_aux, 'log_like': terms_ll})
+        n += 1
+        if list(b6.free_beta_names) != free_names:
+            out.append(dict(what='several formulas: free_beta_names', got=list(b6.free_beta_names), want=free_names))
+        else:
+            got = b6.calculate_likelihood(x, scaled=False)
+            if not close(got, fq(rec['ll_split']), rel=1e-12):
+                out.append(dict(what='several formulas: likelihood', got=got, want=fq(rec['ll_split']), x=x, names=free_names))
+            sim6 = b6.simulate({nm: values[nm] for nm in free_names})
+            want_aux = [fq(v) for v in rec['aux_per_row']]
+            if any(not close(g, w, rel=1e-12) for g, w in zip(sim6['aux'].tolist(), want_aux)):
+                out.append(dict(what='several formulas: simulate of the second formula', got=sim6['aux'].tolist(), want=want_aux))
     # partial dictionary through get_value_c: only the named parameters are overridden
     partial = {names[r]: fq(rec['dictvals'][r]) for r in range(nr) if rec['dict'][r]}
     f2, _ = build(rec)
